@@ -373,6 +373,26 @@ def _returned_strings(func: Func, tuple_index: Optional[int] = None) -> Set[str]
     return out
 
 
+def _possible_strings(f: Func, e: ast.AST, depth: int = 0) -> Set[str]:
+    """string constants an expression may denote: a literal, a conditional expression of literals, or a local that is
+    only ever bound to such expressions"""
+    s_ = const_str(e)
+    if s_ is not None:
+        return {s_}
+    if isinstance(e, ast.IfExp):
+        return _possible_strings(f, e.body, depth) | _possible_strings(f, e.orelse, depth)
+    if isinstance(e, ast.Name) and depth < 3:
+        out: Set[str] = set()
+        asg = assignments_to(f, e.id)
+        for _st, v, idx in asg:
+            got = _possible_strings(f, v, depth + 1) if idx is None else set()
+            if not got:
+                return set()
+            out |= got
+        return out
+    return set()
+
+
 def produced_labels(ctx) -> Tuple[Set[str], Set[str], Dict[str, str]]:
     """(unbalance labels, carbon labels, where)"""
     prog = ctx.prog
@@ -399,8 +419,9 @@ def produced_labels(ctx) -> Tuple[Set[str], Set[str], Dict[str, str]]:
     for n in own_nodes(cp.node):
         if isinstance(n, ast.Assign) and len(n.targets) == 1 and isinstance(n.targets[0], ast.Subscript):
             k = const_str(n.targets[0].slice)
-            v = const_str(n.value)
-            if k is not None and v is not None:
+            if k is None:
+                continue
+            for v in _possible_strings(cp, n.value):
                 B.add(v)
                 carbon_key = k
                 where.setdefault(v, CARBON_PROC)
@@ -704,7 +725,7 @@ def rule_e6(ctx, rule_id: str = "C07-E6") -> None:
     # the two quantities compared for the label
     cmp_names = None
     for n in own_nodes(f.node):
-        if isinstance(n, ast.If) and isinstance(n.test, ast.Compare) and isinstance(n.test.ops[0], ast.Eq) and isinstance(n.test.left, ast.Name) and isinstance(n.test.comparators[0], ast.Name):
+        if isinstance(n, (ast.If, ast.IfExp)) and isinstance(n.test, ast.Compare) and isinstance(n.test.ops[0], ast.Eq) and isinstance(n.test.left, ast.Name) and isinstance(n.test.comparators[0], ast.Name):
             a, b = n.test.left.id, n.test.comparators[0].id
             if all(any("sum(" in unparse(v) for _, v, _i in assignments_to(f, x)) for x in (a, b)) and cmp_names is None:
                 cmp_names = (a, b)
